@@ -667,17 +667,35 @@ func (c *Ctx) c16Immutable() {
 					srcOK = true
 				}
 			}
-			if cl, ok := stripConv(dst).(*ssa.Call); ok && calleeFull(&cl.Call) == "strings.ReplaceAll" && srcOK {
-				o, _ := constString(cl.Call.Args[1])
-				n, isC := constString(cl.Call.Args[2])
-				if o == ".part" && isC && n == "" {
-					good = true
+			why = "the final name is not the uploaded name with the '.part' marker removed"
+			fromSrc := func(v ssa.Value) bool {
+				for _, l := range sources(v, deriveOpts{}) {
+					if ex, ok := l.(*ssa.Extract); ok && ex.Tuple == ssa.Value(transfer) && ex.Index == 0 {
+						return true
+					}
+				}
+				return false
+			}
+			switch d := resolveValue(stripConv(dst)).(type) {
+			case *ssa.Slice:
+				// uploaded[:len(uploaded)-len(marker)]
+				if srcOK && d.Low == nil && d.High != nil && fromSrc(d.X) {
+					if sub, ok := d.High.(*ssa.BinOp); ok && sub.Op == token.SUB {
+						if k, isC := constInt(sub.Y); isC && k == int64(len(".part")) {
+							good = true
+						}
+					}
+				}
+			case *ssa.Call:
+				switch calleeFull(&d.Call) {
+				case "strings.TrimSuffix":
+					if mk, _ := constString(d.Call.Args[1]); srcOK && mk == ".part" && fromSrc(d.Call.Args[0]) {
+						good = true
+					}
+				case "strings.ReplaceAll", "strings.Replace":
+					why = "the final name is computed by removing '.part' wherever it occurs in the whole path (" + calleeFull(&d.Call) + "): with a key or a storage path that contains the marker (\"release.partial-1\", \".../cache.partition\") the package is moved to another directory — Store reports success and the following Fetch finds no entry"
 				}
 			}
-			if strings.HasSuffix(calleeFull(&move.Call), "TrimSuffix") {
-				good = true
-			}
-			why = "the final name is not the uploaded name with the '.part' marker removed"
 		}
 		pos := c.pos(store.Pos())
 		if move != nil {
